@@ -79,7 +79,7 @@ def run_case(case):
             violation(res, cls + '@threads', msg)
     log('problems', sorted(seen))
     res['steps'] = s.step
-    res['fired']['switch_with_two_in_flight'] += overlap[0]
+    res['fired']['preempted_mid_request'] += overlap[0]
     res['probes']['scheduled'] += 1
     res['probes']['plan:' + case['plan']['mode']] += 1
     apps_used = {c['app'] for c in calls}
